@@ -236,7 +236,7 @@ Print Assumptions C13_enc_verifies_iff.
 Theorem C13_dec_verifies_iff :
   forall q (Hc : list (zq q) -> zq q) (G X : zq q) (e d : pvshare q),
     verify_dec_share Hc G X e d = VOk <->
-    sI d = sI e /\ pC (sP d) = Hc [X; sV e; pVG (sP d); pVH (sP d)] /\
+    sI d = sI e /\ pC (sP d) = Hc [X; sV e; sV d; pVG (sP d); pVH (sP d)] /\
     dleq_eqs q (sP d) G (sV d) X (sV e).
 Proof. exact dec_verifies_iff. Qed.
 Print Assumptions C13_dec_verifies_iff.
@@ -279,7 +279,7 @@ Theorem C13_dec_single_field_rejects :
                 verify_dec_share Hc G X e (set_P q d (set_R q (sP d) r')) = VProof) /\
     (forall g', g' <> pVG (sP d) -> verdict_ok (verify_dec_share Hc G X e (set_P q d (set_VG q (sP d) g'))) = false) /\
     (forall h', h' <> pVH (sP d) -> verdict_ok (verify_dec_share Hc G X e (set_P q d (set_VH q (sP d) h'))) = false) /\
-    (forall v', v' <> sV d -> pR (sP d) <> zzero -> verify_dec_share Hc G X e (set_V q d v') = VProof) /\
+    (forall v', v' <> sV d -> pR (sP d) <> zzero -> verdict_ok (verify_dec_share Hc G X e (set_V q d v')) = false) /\
     (forall s', s' <> sV e -> pC (sP d) <> zzero -> verdict_ok (verify_dec_share Hc G X (set_V q e s') d) = false) /\
     (forall X', X' <> X -> pC (sP d) <> zzero -> verdict_ok (verify_dec_share Hc G X' e d) = false).
 Proof. exact dec_single_field_rejects. Qed.
@@ -305,6 +305,87 @@ Theorem C13_dec_swap_rejected_key :
     X' <> X -> pC (sP d) = zzero.
 Proof. exact dec_swap_rejected_key. Qed.
 Print Assumptions C13_dec_swap_rejected_key.
+
+(* ---------------------------------------------------------------- the decrypted share and its challenge *)
+
+(* REFUTED for the verifier before the repair ("only correct shares verify"
+   was false): with the challenge computed over (X, xS, VG, VH) only, a trustee
+   who picks the commitments first and solves for V' gets a wrong decrypted
+   share accepted - for every hash function Hc *)
+Theorem C13_dec_share_forgery_before_repair :
+  forall q (Hq : prime q) (Hc : list (zq q) -> zq q) (x v W : zq q) (e : pvshare q),
+    let X := smul x pbase in
+    let c := Hc [X; sV e; smul v pbase; W] in
+    let r := zsub v (zmul c x) in
+    let V' := smul (zinv r) (psub W (smul c (sV e))) in
+    let d := mkShare (sI e) V' (mkProof c r (smul v pbase) W) in
+    x <> zzero -> r <> zzero ->
+    verify_dec_share_unrepaired Hc pbase X e d = VOk /\
+    (W <> smul v (smul (zinv x) (sV e)) -> V' <> smul (zinv x) (sV e)).
+Proof. exact dec_share_forgery_before_repair. Qed.
+Print Assumptions C13_dec_share_forgery_before_repair.
+
+(* concrete instance (q = 251, x = 3, xS = 60, v = 100, W = 77): the forged
+   share 158 <> 3^-1 * 60 = 20 (c = 98, r = 57) is accepted by the old verifier and rejected
+   (challenge) by the repaired one *)
+Example C13_dec_share_forgery_instance :
+  let q := 251%Z in
+  let f := of_Z q in
+  let Hc := fun l : list (zq q) => fold_left (fun a b => zadd (zmul a (f 31%Z)) (zadd b (f 1%Z))) l (f 9%Z) in
+  let e : pvshare q := mkShare 0%Z (f 60%Z) (mkProof zzero zzero zzero zzero) in
+  let X := smul (f 3%Z) pbase in
+  let c := Hc [X; sV e; smul (f 100%Z) pbase; f 77%Z] in
+  let r := zsub (f 100%Z) (zmul c (f 3%Z)) in
+  let V' := smul (zinv r) (psub (f 77%Z) (smul c (sV e))) in
+  let d := mkShare 0%Z V' (mkProof c r (smul (f 100%Z) pbase) (f 77%Z)) in
+  val (smul (zinv (f 3%Z)) (sV e)) = 20%Z /\ val V' <> 20%Z /\
+  verify_dec_share_unrepaired Hc pbase X e d = VOk /\
+  verify_dec_share Hc pbase X e d = VChallenge.
+Proof. vm_compute. repeat split; discriminate. Qed.
+
+(* repaired verifier: the accepted challenge is a hash of V itself *)
+Theorem C13_dec_accepted_challenge_binds_V :
+  forall q (Hc : list (zq q) -> zq q) (G X : zq q) (e d : pvshare q),
+    verify_dec_share Hc G X e d = VOk ->
+    pC (sP d) = Hc [X; sV e; sV d; pVG (sP d); pVH (sP d)].
+Proof. exact dec_accepted_challenge_binds_V. Qed.
+Print Assumptions C13_dec_accepted_challenge_binds_V.
+
+(* "only correct shares verify", precisely: an accepted WRONG decrypted share
+   (log_G X <> log_V xS) means that the hash of (X, xS, V, VG, VH) hit the one
+   bad challenge c* determined by these very inputs *)
+Theorem C13_dec_wrong_share_one_challenge :
+  forall q (Hq : prime q) (Hc : list (zq q) -> zq q) (G X : zq q) (e d : pvshare q),
+    verify_dec_share Hc G X e d = VOk ->
+    zmul X (sV d) <> zmul (sV e) G ->
+    Hc [X; sV e; sV d; pVG (sP d); pVH (sP d)] =
+    zdiv (zsub (zmul (pVG (sP d)) (sV d)) (zmul (pVH (sP d)) G)) (zsub (zmul X (sV d)) (zmul (sV e) G)).
+Proof. exact dec_wrong_share_one_challenge. Qed.
+Print Assumptions C13_dec_wrong_share_one_challenge.
+
+Theorem C13_dec_wrong_share_one_challenge_key :
+  forall q (Hq : prime q) (Hc : list (zq q) -> zq q) (x : zq q) (e d : pvshare q),
+    x <> zzero ->
+    verify_dec_share Hc pbase (smul x pbase) e d = VOk ->
+    sV d <> smul (zinv x) (sV e) ->
+    Hc [smul x pbase; sV e; sV d; pVG (sP d); pVH (sP d)] =
+    zdiv (zsub (zmul (pVG (sP d)) (sV d)) (zmul (pVH (sP d)) pbase))
+         (zsub (zmul (smul x pbase) (sV d)) (zmul (sV e) pbase)).
+Proof. exact dec_wrong_share_one_challenge_key. Qed.
+Print Assumptions C13_dec_wrong_share_one_challenge_key.
+
+(* special soundness (two hash oracles = rewinding): two accepted transcripts
+   with the same (V, VG, VH) and different challenges force V = x^-1 xS *)
+Theorem C13_dec_special_sound :
+  forall q (Hq : prime q) (Hc Hc' : list (zq q) -> zq q) (x : zq q) (e d d' : pvshare q),
+    x <> zzero ->
+    verify_dec_share Hc pbase (smul x pbase) e d = VOk ->
+    verify_dec_share Hc' pbase (smul x pbase) e d' = VOk ->
+    sV d = sV d' -> pVG (sP d) = pVG (sP d') -> pVH (sP d) = pVH (sP d') ->
+    pC (sP d) <> pC (sP d') ->
+    sV d = smul (zinv x) (sV e).
+Proof. exact dec_special_sound. Qed.
+Print Assumptions C13_dec_special_sound.
 
 (* ---------------------------------------------------------------- non-vacuity *)
 
